@@ -34,6 +34,235 @@ def is_xc(p):
     return "xcomplex<" in ir.wtype(p)
 
 
+# ---- symbolic evaluation of the small operator / wrapper bodies ------------------------------------------------------------------
+class Giveup(Exception):
+    pass
+
+
+def _is_cx_type(q):
+    return "xcomplex<" in q or "complex<" in q or "xcomplex_t<" in q or "common_xcomplex" in q or "temporary_xcomplex" in q
+
+
+class CxSim:
+    """Straight-line symbolic execution of an xcomplex operator or wrapper body.  Values: ("P", name) a parameter; ("THIS",) the initial
+    *this; ("cx", re, im) a complex built from parts (normalised back to X when re/im are the parts of the same X); ("re"|"im", X);
+    ("op", o, a, b); ("neg", a); ("call", name, args...); ("cxop", "+=", a, b) a compound operator applied to a complex local;
+    ("fromscalar", v); ("zero",); ("lit", v).  Two bodies that compute the same thing in different spellings evaluate to the same value."""
+
+    def __init__(self, d, fn):
+        self.d = d
+        self.fn = fn
+        self.cxparam = {p["name"]: _is_cx_type(ir.wtype(p)) for p in ir.params(fn)}
+        self.loc = {}
+        self.loc_cx = {}
+        self.state = {"m_real": ("re", ("THIS",)), "m_imag": ("im", ("THIS",))}
+        self.ret = None
+        self.calls = []          # (name, node text) of the calls met, for the std:: qualification check
+
+    @staticmethod
+    def cx(re_, im_):
+        if re_[0] == "re" and im_[0] == "im" and re_[1] == im_[1]:
+            return re_[1]
+        return ("cx", re_, im_)
+
+    @staticmethod
+    def part(v, which):
+        if v[0] == "cx":
+            return v[1] if which == "re" else v[2]
+        if v[0] == "fromscalar":
+            return v[1] if which == "re" else ("zero",)
+        return (which, v)
+
+    def is_cx(self, v):
+        if v[0] in ("cx", "THIS", "cxop", "fromscalar"):
+            return True
+        if v[0] == "P":
+            return self.cxparam.get(v[1], False)
+        if v[0] == "call":
+            return v[1] in ("mul", "div") or (len(v) > 2 and any(self.is_cx(a) for a in v[2:]) and v[1] not in ("abs", "arg", "norm", "real", "imag"))
+        return False
+
+    def this_val(self):
+        return self.cx(self.state["m_real"], self.state["m_imag"])
+
+    def ev(self, t):
+        k = t[0]
+        if k == "cast":
+            return self.ev(t[3])
+        if k == "lit":
+            return ("lit", str(t[1]))
+        if k == "ref":
+            if t[1] in self.loc:
+                return self.loc[t[1]]
+            return ("P", t[1])
+        if k == "this":
+            return ("THISPTR",)
+        if k == "un" and t[1] == "*" and t[2] == ("this",):
+            return self.this_val()
+        if k == "un" and t[1] == "-":
+            return ("neg", self.ev(t[2]))
+        if k == "un" and t[1] == "+":
+            return self.ev(t[2])
+        if k == "un" and t[1] == "!":
+            return ("not", self.ev(t[2]))
+        if k == "mem" and t[2] in ("m_real", "m_imag"):
+            if t[1] == ("this",):
+                return self.state[t[2]]
+            return self.part(self.ev(t[1]), "re" if t[2] == "m_real" else "im")
+        if k == "call":
+            callee = t[1]
+            args = t[2:]
+            if callee[0] == "mem" and callee[2] in ("real", "imag") and not args:
+                base = self.this_val() if callee[1] == ("this",) else self.ev(callee[1])
+                return self.part(base, "re" if callee[2] == "real" else "im")
+            nm = (callee[2] if callee[0] == "mem" else str(callee[1])).split("::")[-1]
+            if nm in ("move", "forward") and len(args) == 1:
+                return self.ev(args[0])
+            if callee[0] == "mem" and callee[2].startswith("operator") and len(args) == 1:
+                return ("op", callee[2][8:], self.ev(callee[1]), self.ev(args[0]))
+            return ("call", nm) + tuple(self.ev(a) for a in args)
+        if k == "construct":
+            args = t[2:]
+            if len(args) == 0:
+                return ("zero",)
+            if len(args) == 1:
+                v = self.ev(args[0])
+                if self.is_cx(v):
+                    return v
+                if _is_cx_type(str(t[1])):
+                    return ("fromscalar", v)
+                return v if str(t[1]) != "NULL TYPE" else ("ctor1", v)
+            if len(args) == 2:
+                return self.cx(self.ev(args[0]), self.ev(args[1]))
+            raise Giveup("construction with %d arguments" % len(args))
+        if k == "bin":
+            op = t[1]
+            if op in ("&&", "||", "==", "!=", "+", "-", "*", "/", "<", ">", "<=", ">="):
+                return ("op", op, self.ev(t[2]), self.ev(t[3]))
+            raise Giveup("operator %s inside an expression" % op)
+        if k == "cond":
+            return ("cond", self.ev(t[1]), self.ev(t[2]), self.ev(t[3]))
+        raise Giveup("expression form %s" % k)
+
+    def assign(self, t):
+        op, lhs, rhs = t[1], t[2], self.ev(t[3])
+        while lhs[0] == "cast":
+            lhs = lhs[3]
+        if lhs[0] == "mem" and lhs[1] == ("this",) and lhs[2] in ("m_real", "m_imag"):
+            self.state[lhs[2]] = rhs if op == "=" else ("op", op[:-1], self.state[lhs[2]], rhs)
+            return
+        if lhs == ("un", "*", ("this",)):
+            if op != "=":
+                v = ("cxop", op, self.this_val(), rhs)
+            else:
+                v = rhs
+            self.state["m_real"], self.state["m_imag"] = self.part(v, "re"), self.part(v, "im")
+            return
+        if lhs[0] == "ref" and lhs[1] in self.loc:
+            old = self.loc[lhs[1]]
+            if op == "=":
+                self.loc[lhs[1]] = rhs
+            elif self.loc_cx.get(lhs[1]):
+                self.loc[lhs[1]] = ("cxop", op, old, rhs)
+            else:
+                self.loc[lhs[1]] = ("op", op[:-1], old, rhs)
+            return
+        raise Giveup("assignment to `%s`" % ir.show(lhs))
+
+    def run(self):
+        d = self.d
+        for s_ in ir.kids(ir.body(self.fn)):
+            k = s_.get("kind")
+            if k == "DeclStmt":
+                for v in ir.kids(s_):
+                    if v.get("kind") != "VarDecl":
+                        continue
+                    init = ir.ekids(v)
+                    q = ir.qtype(v)
+                    if not init:
+                        self.loc[v["name"]] = ("zero",)
+                    else:
+                        t = ir.sx(init[-1])
+                        val = self.ev(t)
+                        if val[0] == "ctor1":
+                            val = ("fromscalar", val[1]) if _is_cx_type(q) else val[1]
+                        self.loc[v["name"]] = val
+                    self.loc_cx[v["name"]] = _is_cx_type(q) or (q.strip() in ("auto", "const auto") and self.is_cx(self.loc[v["name"]]))
+                continue
+            if k in ("BinaryOperator", "CompoundAssignOperator") and s_.get("opcode", "").endswith("=") and s_.get("opcode") not in ("==", "!=", "<=", ">="):
+                self.assign(ir.sx(s_))
+                continue
+            if k == "ReturnStmt":
+                self.ret = self.ev(ir.sx(ir.ekids(s_)[0])) if ir.ekids(s_) else None
+                return self
+            if k in ("NullStmt",):
+                continue
+            raise Giveup("statement kind %s" % k)
+        return self
+
+
+def cx_runs(d, fn):
+    """one finished CxSim per path: the straight-line body itself, or - when the body branches - every path through it (conditions are not
+    interpreted: each branch must produce the expected effect on its own)"""
+    from .. import flow
+    try:
+        return [CxSim(d, fn).run()]
+    except Giveup as e:
+        if "statement kind" not in str(e):
+            raise
+    out = []
+    for path in flow.function_paths(fn, with_ctor_inits=False):
+        sim = CxSim(d, fn)
+        for st in path:
+            if st[0] == "decl":
+                v = st[1]
+                init = ir.ekids(v)
+                q = ir.qtype(v)
+                val = sim.ev(ir.sx(init[-1])) if init else ("zero",)
+                if val[0] == "ctor1":
+                    val = ("fromscalar", val[1]) if _is_cx_type(q) else val[1]
+                sim.loc[v["name"]] = val
+                sim.loc_cx[v["name"]] = _is_cx_type(q) or (q.strip() in ("auto", "const auto") and sim.is_cx(val))
+            elif st[0] == "ev" and st[1].get("kind") in ("BinaryOperator", "CompoundAssignOperator") and st[1].get("opcode", "").endswith("=") \
+                    and st[1].get("opcode") not in ("==", "!=", "<=", ">="):
+                sim.assign(ir.sx(st[1]))
+            elif st[0] == "return":
+                sim.ret = sim.ev(ir.sx(ir.ekids(st[1])[0])) if ir.ekids(st[1]) else None
+            elif st[0] in ("throw", "escape"):
+                raise Giveup("a path throws")
+        out.append(sim)
+    return out
+
+
+def vshow(v):
+    if not isinstance(v, tuple):
+        return str(v)
+    k = v[0]
+    if k == "P":
+        return v[1]
+    if k == "THIS":
+        return "*this"
+    if k in ("re", "im"):
+        return "%s(%s)" % ("real" if k == "re" else "imag", vshow(v[1]))
+    if k == "cx":
+        return "(%s, %s)" % (vshow(v[1]), vshow(v[2]))
+    if k == "op":
+        return "(%s %s %s)" % (vshow(v[2]), v[1], vshow(v[3]))
+    if k == "neg":
+        return "-%s" % vshow(v[1])
+    if k == "call":
+        return "%s(%s)" % (v[1], ", ".join(vshow(a) for a in v[2:]))
+    if k == "cxop":
+        return "(%s %s %s)" % (vshow(v[2]), v[1], vshow(v[3]))
+    if k == "fromscalar":
+        return "complex(%s)" % vshow(v[1])
+    if k == "zero":
+        return "0"
+    if k == "lit":
+        return v[1]
+    return str(v)
+
+
 def rule_fwd(rep, d):
     rep.rule("C10.fwd", "a free function F over xcomplex returns std::F applied to std::complex<value_type>(x) for every xcomplex "
                         "parameter and to the scalar parameters as they are, in parameter order")
@@ -45,38 +274,36 @@ def rule_fwd(rep, d):
         ps = ir.params(fn)
         if not ps or not any(is_xc(p) for p in ps):
             continue
-        stmts = [s for s in ir.kids(ir.body(fn)) if s.get("kind") != "DeclStmt"]
-        if len(stmts) != 1 or stmts[0].get("kind") != "ReturnStmt":
-            rep.inconclusive("C10.fwd", name, "body", where=d.where(fn), detail="not a single return statement")
+        label = "%s(%s)" % (name, ", ".join("xcomplex" if is_xc(p) else "scalar" for p in ps))
+        try:
+            sim = CxSim(d, fn).run()
+        except Giveup as e:
+            rep.inconclusive("C10.fwd", name, "body", where=d.where(fn), detail="not straight-line: %s" % e)
             continue
         n += 1
-        raw = ir.sx(ir.ekids(stmts[0])[0])
-        label = "%s(%s)" % (name, ", ".join("xcomplex" if is_xc(p) else "scalar" for p in ps))
-        t = raw
-        while t[0] == "cast" or (t[0] == "construct" and len(t) == 3):
-            t = t[3] if t[0] == "cast" else t[2]
-        ok = t[0] == "call" and t[1] == ("ref", name) and len(t) == 2 + len(ps)
+        want = ("call", name) + tuple(("P", p["name"]) for p in ps)
+        got = sim.ret
         why = ""
+        ok = got == want
         if not ok:
-            why = "does not return std::%s(...) of its %d parameters" % (name, len(ps))
-        else:
-            for p, a in zip(ps, t[2:]):
-                pn = ("ref", p["name"])
-                if is_xc(p):
-                    good = (a[0] in ("construct", "cast") and a[-1] == pn and "complex<" in str(a[1] if a[0] == "construct" else a[2])) or a == pn
-                    if not good:
-                        ok = False
-                        why = "argument for `%s` is `%s`, expected std::complex<value_type>(%s)" % (p["name"], ir.show(a), p["name"])
-                else:
-                    if strip_casts(a) != pn:
-                        ok = False
-                        why = "scalar argument `%s` is passed as `%s`" % (p["name"], ir.show(a))
-        # the callee must be the std function: written qualified
-        if ok and ("std::" + name) not in d.text(stmts[0]):
-            ok = False
-            why = "the callee is not written as std::%s" % name
+            why = "returns `%s`, expected std::%s(%s) of its parameters in order" % (vshow(got) if got else "nothing", name, ", ".join(p["name"] for p in ps))
+        # the callee must be the std function, and the conversion must be to std::complex over the value type (not a narrower one)
+        body_txt = d.text(ir.body(fn))
+        if ok and ("std::" + name) not in body_txt:
+            ok, why = False, "the callee is not written as std::%s" % name
+        if ok:
+            for x in ir.walk_expr(ir.body(fn)):
+                q = None
+                if x.get("kind") in ("CXXUnresolvedConstructExpr", "CXXFunctionalCastExpr", "CXXTemporaryObjectExpr", "CXXConstructExpr"):
+                    q = ir.qtype(x)
+                elif x.get("kind") == "VarDecl":
+                    q = ir.qtype(x)
+                if q and "complex<" in q and "xcomplex" not in q:
+                    inner = q[q.index("complex<") + 8:]
+                    if "value_type" not in inner:
+                        ok, why = False, "converts to `%s`, expected std::complex<value_type>" % q
         (rep.holds if ok else rep.violates)("C10.fwd", label, "forwards to std::" + name, where=d.where(fn),
-                                            detail=ir.show(t)[:120] if ok else why + " (`%s`)" % ir.show(raw)[:140])
+                                            detail=vshow(got)[:120] if ok else why)
     rep.unit("%d forwarding wrappers" % n)
 
 
@@ -94,55 +321,113 @@ def part(t, names):
 def rule_eq(rep, d):
     rep.rule("C10.eq", "== is (real == real) && (imag == imag) between the two operands, != is its negation, unary minus negates both "
                        "parts, unary plus returns its operand")
+    from .. import flow
+    from .. import fstring as fs
     for fn in ir.functions(d):
         name = fn.get("name")
         ps = ir.params(fn)
         if not ir.is_template_pattern(d, fn) or fn.get("kind") != "FunctionDecl" or not ps or not all(is_xc(p) for p in ps):
             continue
         where = d.where(fn)
-        rets = [s for s in ir.walk_expr(ir.body(fn)) if s.get("kind") == "ReturnStmt"]
-        if len(rets) != 1:
-            continue
-        t = strip_casts(ir.sx(ir.ekids(rets[0])[0]))
-        if name == "operator==" and len(ps) == 2:
-            conj = []
-
-            def flat(x):
-                if x[0] == "bin" and x[1] == "&&":
-                    flat(x[2]); flat(x[3])
-                else:
-                    conj.append(x)
-            flat(t)
-            seen = set()
-            bad = []
-            for c in conj:
-                pa, pb = (part(c[2], None), part(c[3], None)) if c[0] == "bin" and c[1] == "==" else (None, None)
-                if not pa or not pb or pa[1] != pb[1] or {pa[0], pb[0]} != {ps[0]["name"], ps[1]["name"]}:
-                    bad.append("`%s` is not an equality of the same part of both operands" % ir.show(c))
-                else:
-                    seen.add(pa[1])
-            if seen != {"real", "imag"}:
-                bad.append("parts compared: %s" % sorted(seen))
-            (rep.holds if not bad else rep.violates)("C10.eq", "operator==", "both parts", where=where, detail="; ".join(bad) or ir.show(t))
-        elif name == "operator!=" and len(ps) == 2:
-            l, r = ("ref", ps[0]["name"]), ("ref", ps[1]["name"])
-            ok = t in (("un", "!", ("bin", "==", l, r)), ("un", "!", ("bin", "==", r, l)))
-            (rep.holds if ok else rep.violates)("C10.eq", "operator!=", "negation of ==", where=where, detail=ir.show(t))
-        elif name == "operator-" and len(ps) == 1:
-            p = ps[0]["name"]
-            ok = t[0] == "construct" and len(t) == 4 and all(
-                a[0] == "un" and a[1] == "-" and part(a[2], None) == (p, w) for a, w in zip(t[2:], ("real", "imag")))
-            (rep.holds if ok else rep.violates)("C10.eq", "operator-(x)", "negates both parts", where=where,
-                                                detail=ir.show(t) if ok else "expected (-x.real(), -x.imag()); found `%s`" % ir.show(t))
-        elif name == "operator+" and len(ps) == 1:
-            ok = t == ("ref", ps[0]["name"])
-            (rep.holds if ok else rep.violates)("C10.eq", "operator+(x)", "identity", where=where, detail=ir.show(t))
+        if name in ("operator==", "operator!=") and len(ps) == 2:
+            # truth table over (real parts equal, imaginary parts equal), along every path
+            l, r = ps[0]["name"], ps[1]["name"]
+            loc = fs.local_sx(fn)
+            sim = CxSim(d, fn)
+            bad = None
+            for er, ei in itertools.product((True, False), repeat=2):
+                def tv(v):
+                    k = v[0]
+                    if k == "lit":
+                        return {"true": True, "false": False, "1": True, "0": False}.get(v[1])
+                    if k == "not":
+                        x = tv(v[1])
+                        return None if x is None else not x
+                    if k == "cond":
+                        c = tv(v[1])
+                        return None if c is None else tv(v[2] if c else v[3])
+                    if k == "op" and v[1] in ("&&", "||"):
+                        x = tv(v[2])
+                        if x is None:
+                            return None
+                        if x == (v[1] == "||"):
+                            return x
+                        return tv(v[3])
+                    if k == "op" and v[1] in ("==", "!="):
+                        a_, b_ = v[2], v[3]
+                        res = None
+                        if {a_, b_} == {("re", ("P", l)), ("re", ("P", r))}:
+                            res = er
+                        elif {a_, b_} == {("im", ("P", l)), ("im", ("P", r))}:
+                            res = ei
+                        elif {a_, b_} == {("P", l), ("P", r)}:
+                            res = er and ei        # the sibling operator==, decided on its own
+                        if res is None:
+                            return None
+                        return res if v[1] == "==" else not res
+                    return None
+                want = (er and ei) if name == "operator==" else not (er and ei)
+                got = set()
+                try:
+                    for path in flow.function_paths(fn, with_ctor_inits=False):
+                        feas = True
+                        for s_ in path:
+                            if s_[0] == "cond":
+                                x = tv(sim.ev(fs.subst_locals(ir.sx(s_[1]), loc)))
+                                if x is None:
+                                    raise Giveup("condition `%s`" % d.text(s_[1])[:50])
+                                if x != s_[2]:
+                                    feas = False
+                                    break
+                        if not feas:
+                            continue
+                        end = path[-1]
+                        if end[0] != "return":
+                            raise Giveup("a path does not return")
+                        x = tv(sim.ev(fs.subst_locals(ir.sx(ir.ekids(end[1])[0]), loc)))
+                        if x is None:
+                            lastc = [s_ for s_ in path if s_[0] == "cond"]
+                            rt = strip_casts(ir.sx(ir.ekids(end[1])[0]))
+                            if lastc and rt[0] == "bin" and rt[1] in ("&&", "||"):
+                                x = lastc[-1][2]
+                            else:
+                                raise Giveup("returned expression `%s`" % d.text(ir.ekids(end[1])[0])[:60])
+                        got.add(x)
+                except Giveup as e:
+                    bad = ("inconclusive", "not evaluable: %s" % e)
+                    break
+                if got != {want}:
+                    bad = ("violates", "with real parts %s and imaginary parts %s it yields %s, expected %s" % (
+                        "equal" if er else "different", "equal" if ei else "different", sorted(got), want))
+                    break
+            cons = "both parts" if name == "operator==" else "negation of =="
+            if bad is None:
+                rep.holds("C10.eq", name, cons, where=where, detail="truth table over (real equal, imag equal)")
+            elif bad[0] == "violates":
+                rep.violates("C10.eq", name, cons, where=where, detail=bad[1])
+            else:
+                rep.inconclusive("C10.eq", name, cons, where=where, detail=bad[1])
+        elif name in ("operator-", "operator+") and len(ps) == 1:
+            p = ("P", ps[0]["name"])
+            try:
+                got = CxSim(d, fn).run().ret
+            except Giveup as e:
+                rep.inconclusive("C10.eq", "%s(x)" % name, "unary", where=where, detail=str(e))
+                continue
+            if name == "operator-":
+                ok = got == ("cx", ("neg", ("re", p)), ("neg", ("im", p)))
+                (rep.holds if ok else rep.violates)("C10.eq", "operator-(x)", "negates both parts", where=where,
+                                                    detail=vshow(got) if ok else "expected (-x.real(), -x.imag()); found `%s`" % vshow(got))
+            else:
+                ok = got == p
+                (rep.holds if ok else rep.violates)("C10.eq", "operator+(x)", "identity", where=where, detail=vshow(got))
 
 
 def rule_opname(rep, d):
     rep.rule("C10.opname", "binary operator X(lhs, rhs): result constructed from lhs, `res X= rhs`, returned; compound assignment with a "
                            "scalar touches real only (+= -=) or both parts (*= /=); member (compound) assignments from another xcomplex treat "
                            "m_real/m_imag symmetrically (real<-real, imag<-imag); *= and /= assign mul/div(*this, rhs)")
+    THIS = ("THIS",)
     for fn in ir.functions(d):
         name = fn.get("name", "")
         if not ir.is_template_pattern(d, fn):
@@ -152,23 +437,16 @@ def rule_opname(rep, d):
         if fn.get("kind") == "FunctionDecl" and name in ("operator+", "operator-", "operator*", "operator/") and len(ps) == 2 and any(is_xc(p) for p in ps):
             op = name[8:]
             label = "%s(%s)" % (name, ", ".join("xcomplex" if is_xc(p) else "scalar" for p in ps))
-            stmts = ir.kids(ir.body(fn))
-            shape = [s.get("kind") for s in stmts]
-            ok = False
-            got = "; ".join(d.text(s)[:40] for s in stmts)
-            why = "expected `R res(lhs); res %s= rhs; return res;`" % op
-            if shape == ["DeclStmt", stmts[1].get("kind"), "ReturnStmt"] and len(stmts) == 3:
-                vd = [v for v in ir.kids(stmts[0]) if v.get("kind") == "VarDecl"]
-                init = strip_casts(ir.sx(ir.ekids(vd[0])[-1])) if vd and ir.ekids(vd[0]) else None
-                while init is not None and init[0] == "construct" and len(init) == 3:
-                    init = init[2]
-                mid = ir.sx(stmts[1])
-                ret = strip_casts(ir.sx(ir.ekids(stmts[2])[0]))
-                res = ("ref", vd[0]["name"]) if vd else None
-                ok = init == ("ref", ps[0]["name"]) and mid == ("bin", op + "=", res, ("ref", ps[1]["name"])) and ret == res
-                if not ok:
-                    why += "; found init `%s`, step `%s`, return `%s`" % (ir.show(init) if init else "?", ir.show(mid), ir.show(ret))
-            (rep.holds if ok else rep.violates)("C10.opname", label, "built from the left operand with %s=" % op, where=where, detail=got if ok else why)
+            try:
+                got = CxSim(d, fn).run().ret
+            except Giveup as e:
+                rep.inconclusive("C10.opname", label, "built from the left operand with %s=" % op, where=where, detail=str(e))
+                continue
+            l, r = ("P", ps[0]["name"]), ("P", ps[1]["name"])
+            want = ("cxop", op + "=", l if is_xc(ps[0]) else ("fromscalar", l), r)
+            ok = got == want
+            (rep.holds if ok else rep.violates)("C10.opname", label, "built from the left operand with %s=" % op, where=where,
+                                                detail=vshow(got) if ok else "expected `R res(lhs); res %s= rhs; return res;`, i.e. %s; found %s" % (op, vshow(want), vshow(got) if got else "?"))
             continue
         cls = ir.enclosing_class(d, fn)
         if cls is None or cls.get("name") != "xcomplex" or fn.get("kind") != "CXXMethodDecl":
@@ -177,65 +455,41 @@ def rule_opname(rep, d):
             continue
         op = name[8:]
         arg_xc = bool(ps) and is_xc(ps[0])
+        if not ps:
+            continue
         label = "xcomplex::%s(%s)" % (name, "xcomplex" + ("&&" if "&&" in ir.wtype(ps[0]) else "") if arg_xc else "scalar")
-        stmts = [s for s in ir.kids(ir.body(fn)) if s.get("kind") != "ReturnStmt"]
-        effects = [strip_casts(ir.sx(s)) for s in stmts]
-        rname = ps[0]["name"] if ps else None
-
-        def src(t):
-            """source part of an assignment right-hand side: ('rhs','real') / ('rhs','imag') / 'scalar' / other"""
-            t = strip_casts(t)
-            while t[0] == "call" and t[1] in (("ref", "move"), ("ref", "forward")) and len(t) == 3:
-                t = strip_casts(t[2])
-            if t == ("ref", rname):
-                return "scalar"
-            if t[0] == "mem" and t[2] in ("m_real", "m_imag"):
-                return (ir.show(t[1]), t[2][2:])
-            if t[0] == "call" and len(t) == 2 and t[1][0] == "mem" and t[1][2] in ("real", "imag"):
-                b = t[1][1]
-                while b[0] == "call" and b[1] in (("ref", "move"), ("ref", "forward")):
-                    b = b[2]
-                return (ir.show(b), t[1][2])
-            return ("other", ir.show(t))
-        if arg_xc and op in ("=", "+=", "-="):
-            want = {"m_real": "real", "m_imag": "imag"}
-            got = {}
-            bad = []
-            for e in effects:
-                if e[0] == "bin" and e[1] == op and e[2][0] == "mem" and e[2][2] in want:
-                    s_ = src(e[3])
-                    got[e[2][2]] = s_
-                    if not (isinstance(s_, tuple) and s_[0] == rname and s_[1] == want[e[2][2]]):
-                        bad.append("%s %s %s: must take the %s part of %s" % (e[2][2], op, ir.show(e[3]), want[e[2][2]], rname))
-                else:
-                    bad.append("unexpected statement `%s`" % ir.show(e))
-            if set(got) != set(want):
-                bad.append("parts assigned: %s" % sorted(got))
-            (rep.holds if not bad else rep.violates)("C10.opname", label, "part-wise", where=where, detail="; ".join(bad) or "; ".join(ir.show(e) for e in effects))
-        elif arg_xc and op in ("*=", "/="):
-            fnname = "mul" if op == "*=" else "div"
-            ok = len(effects) == 1 and effects[0][0] == "bin" and effects[0][1] == "=" and effects[0][2] == ("un", "*", ("this",))
-            call = effects[0][3] if ok else None
-            ok = ok and call[0] == "call" and ir.show(call[1]).endswith(fnname) and call[2:] == (("un", "*", ("this",)), ("ref", rname))
-            ok = ok and "B || OB" in d.text(stmts[0]).replace("  ", " ")
-            (rep.holds if ok else rep.violates)("C10.opname", label, "assigns %s(*this, rhs)" % fnname, where=where,
-                                                detail=ir.show(effects[0]) if effects else "?")
-        elif not arg_xc and op in ("+=", "-=", "*=", "/="):
-            touched = {}
-            bad = []
-            for e in effects:
-                if e[0] == "bin" and e[1] == op and e[2][0] == "mem" and e[2][2] in ("m_real", "m_imag") and src(e[3]) == "scalar":
-                    touched[e[2][2]] = True
-                else:
-                    bad.append("unexpected statement `%s`" % ir.show(e))
-            want = {"m_real"} if op in ("+=", "-=") else {"m_real", "m_imag"}
-            if set(touched) != want:
-                bad.append("%s with a real scalar must update %s, updates %s" % (op, sorted(want), sorted(touched)))
-            (rep.holds if not bad else rep.violates)("C10.opname", label, "parts touched", where=where, detail="; ".join(bad) or "; ".join(ir.show(e) for e in effects))
-        elif not arg_xc and op == "=":
-            ok = len(effects) == 2 and effects[0][0] == "bin" and effects[0][2] == ("mem", ("this",), "m_real") and src(effects[0][3]) == "scalar" \
-                and effects[1][0] == "bin" and effects[1][2] == ("mem", ("this",), "m_imag") and effects[1][3][0] in ("construct", "lit")
-            (rep.holds if ok else rep.violates)("C10.opname", label, "real <- scalar, imag <- 0", where=where, detail="; ".join(ir.show(e) for e in effects))
+        try:
+            sims = cx_runs(d, fn)
+        except Giveup as e:
+            rep.inconclusive("C10.opname", label, "effect on (m_real, m_imag)", where=where, detail=str(e))
+            continue
+        R = ("P", ps[0]["name"])
+        re0, im0 = ("re", THIS), ("im", THIS)
+        for sim in sims:
+          got = (sim.state["m_real"], sim.state["m_imag"])
+          pathnote = "" if len(sims) == 1 else " on one of the %d paths" % len(sims)
+          if arg_xc and op in ("=", "+=", "-="):
+              want = (("re", R), ("im", R)) if op == "=" else (("op", op[:-1], re0, ("re", R)), ("op", op[:-1], im0, ("im", R)))
+              ok = got == want
+              (rep.holds if ok else rep.violates)("C10.opname", label, "part-wise", where=where,
+                                                  detail=vshow(("cx",) + got) if ok else "leaves (m_real, m_imag) = (%s, %s); expected (%s, %s)" % (vshow(got[0]), vshow(got[1]), vshow(want[0]), vshow(want[1])))
+          elif arg_xc and op in ("*=", "/="):
+              fnname = "mul" if op == "*=" else "div"
+              m = ("call", fnname, THIS, R)
+              ok = got == (("re", m), ("im", m))
+              det = vshow(("cx",) + got)
+              if ok and "B || OB" not in d.text(ir.body(fn)).replace("  ", " "):
+                  ok, det = False, "the multiplier is not selected with `B || OB` (either operand may ask for IEEE semantics)"
+              (rep.holds if ok else rep.violates)("C10.opname", label, "assigns %s(*this, rhs)" % fnname, where=where,
+                                                  detail=det if ok else ("leaves (%s, %s); expected the parts of %s(*this, rhs)" % (vshow(got[0]), vshow(got[1]), fnname) if det == vshow(("cx",) + got) else det))
+          elif not arg_xc and op in ("+=", "-=", "*=", "/="):
+              want = (("op", op[:-1], re0, R), im0) if op in ("+=", "-=") else (("op", op[:-1], re0, R), ("op", op[:-1], im0, R))
+              ok = got == want
+              (rep.holds if ok else rep.violates)("C10.opname", label, "parts touched", where=where,
+                                                  detail=vshow(("cx",) + got) if ok else "%s with a real scalar leaves (%s, %s); expected (%s, %s)" % (op, vshow(got[0]), vshow(got[1]), vshow(want[0]), vshow(want[1])))
+          elif not arg_xc and op == "=":
+              ok = got[0] == R and got[1][0] in ("zero", "lit") and (got[1][0] == "zero" or got[1][1] in ("0", "0.0", "0.", "0.0f"))
+              (rep.holds if ok else rep.violates)("C10.opname", label, "real <- scalar, imag <- 0", where=where, detail="(%s, %s)" % (vshow(got[0]), vshow(got[1])))
 
 
 # ---- polynomial identities -------------------------------------------------------------------------------------------------
@@ -410,46 +664,97 @@ def rule_box(rep, d):
                 pt = part(ir.sx(ir.ekids(v)[-1]), None)
                 if pt and pt[0] in ps:
                     roles[v["name"]] = (ps.index(pt[0]), pt[1])
-        for s in ir.walk_expr(ir.body(fn)):
-            if s.get("kind") == "BinaryOperator" and s.get("opcode") == "=":
-                t = strip_casts(ir.sx(s))
-                lhs, rhs = t[2], t[3]
-                if rhs[0] == "call" and ir.show(rhs[1]).endswith("copysign") and len(rhs) == 4 and lhs[0] == "ref":
-                    n_box += 1
-                    mag, sign = rhs[2], rhs[3]
-                    v = lhs[1]
-                    vars_ = {v}
-                    if sign[0] == "ref":
-                        vars_.add(sign[1])
-                    else:
-                        vars_.add("?" + ir.show(sign))
-                    if mag[0] == "cond":
-                        c = mag[1]
-                        if c[0] == "call" and ir.show(c[1]).endswith("isinf") and c[2][0] == "ref":
-                            vars_.add(c[2][1])
-                        else:
-                            vars_.add("?" + ir.show(c))
-                    # a sign taken from another variable is legitimate only for the infinity results (x, y from c)
-                    if lhs[1] in ("x", "y"):
+        def helper(nm):
+            """a function of the library with a body (an idiom extracted from mul/div), by name"""
+            if not nm or nm in ("copysign", "isinf", "isnan", "logb", "fmax", "fabs", "scalbn", "isfinite", "abs", "max", "mul", "div"):
+                return None
+            for f in ir.functions(d, nm):
+                if ir.body(f) is not None and "xcomplex.hpp" in (d.where(f) or ""):
+                    return f
+            return None
+
+        def subst(x, m):
+            if not isinstance(x, tuple):
+                return x
+            if x[0] == "ref" and x[1] in m:
+                return m[x[1]]
+            return tuple(subst(y, m) if isinstance(y, tuple) else y for y in x)
+
+        def expand(t, depth=0):
+            if not isinstance(t, tuple):
+                return t
+            t = tuple(expand(x, depth) if isinstance(x, tuple) else x for x in t)
+            if len(t) >= 2 and t[0] == "call" and isinstance(t[1], tuple) and t[1][0] == "ref" and depth < 3:
+                h = helper(str(t[1][1]).split("::")[-1])
+                if h is not None:
+                    ks_ = ir.kids(ir.body(h))
+                    if len(ks_) == 1 and ks_[0].get("kind") == "ReturnStmt" and ir.ekids(ks_[0]):
+                        m = dict(zip([p_.get("name") for p_ in ir.params(h)], t[2:]))
+                        return expand(subst(ir.sx(ir.ekids(ks_[0])[0]), m), depth + 1)
+            return t
+
+        def scan(root, sub, depth=0):
+            nonlocal n_box
+            for s in ir.walk_expr(root):
+                if s.get("kind") == "CallExpr" and depth < 3 and (d.parent_of(s) or {}).get("kind") in ("CompoundStmt", "IfStmt", "ExprWithCleanups"):
+                    tc = ir.sx(s)
+                    h = helper(str(tc[1][1]).split("::")[-1]) if tc[0] == "call" and tc[1][0] == "ref" else None
+                    if h is not None:
+                        m = dict(zip([p_.get("name") for p_ in ir.params(h)], [subst(strip_casts(x), sub) for x in tc[2:]]))
+                        scan(ir.body(h), m, depth + 1)
                         continue
-                    if len(vars_) == 1:
-                        rep.holds("C10.box", label, "boxing of %s" % v, where=d.where(s), detail=ir.show(t)[:100])
-                    else:
-                        rep.violates("C10.box", label, "boxing of %s" % v, where=d.where(s),
-                                     detail="`%s` boxes %s but classifies/takes the sign of %s: the component being boxed must be the one tested" % (
-                                         d.text(s)[:90], v, sorted(vars_ - {v})))
-            if s.get("kind") == "IfStmt":
-                ks = ir.ekids(s)
-                c = strip_casts(ir.sx(ks[0]))
-                if c[0] == "call" and ir.show(c[1]).endswith("isnan") and c[2][0] == "ref":
-                    inner = [x for x in ir.walk_expr(ks[1]) if x.get("kind") == "BinaryOperator" and x.get("opcode") == "="]
-                    for a in inner:
-                        ta = strip_casts(ir.sx(a))
-                        if ta[3][0] == "call" and ir.show(ta[3][1]).endswith("copysign"):
-                            n_box += 1
-                            ok = ta[2] == c[2] and ta[3][3] == c[2]
-                            (rep.holds if ok else rep.violates)("C10.box", label, "NaN -> signed zero of %s" % c[2][1], where=d.where(a),
-                                                                detail=ir.show(ta)[:90] if ok else "tests isnan(%s) but rewrites `%s`" % (c[2][1], ir.show(ta)[:80]))
+                if s.get("kind") == "BinaryOperator" and s.get("opcode") == "=":
+                    t = subst(strip_casts(expand(ir.sx(s))), sub)
+                    lhs, rhs = strip_casts(t[2]), strip_casts(t[3])
+                    if rhs[0] == "call" and ir.show(rhs[1]).endswith("copysign") and len(rhs) == 4 and lhs[0] == "ref" and not under_isnan(s, root):
+                        n_box += 1
+                        mag, sign = strip_casts(rhs[2]), strip_casts(rhs[3])
+                        v = lhs[1]
+                        vars_ = {v}
+                        if sign[0] == "ref":
+                            vars_.add(sign[1])
+                        else:
+                            vars_.add("?" + ir.show(sign))
+                        if mag[0] == "cond":
+                            c = strip_casts(mag[1])
+                            if c[0] == "call" and ir.show(c[1]).endswith("isinf") and strip_casts(c[2])[0] == "ref":
+                                vars_.add(strip_casts(c[2])[1])
+                            else:
+                                vars_.add("?" + ir.show(c))
+                        # a sign taken from another variable is legitimate only for the infinity results (x, y from c)
+                        if lhs[1] in ("x", "y"):
+                            continue
+                        if len(vars_) == 1:
+                            rep.holds("C10.box", label, "boxing of %s" % v, where=d.where(s), detail=ir.show(t)[:100])
+                        else:
+                            rep.violates("C10.box", label, "boxing of %s" % v, where=d.where(s),
+                                         detail="`%s` boxes %s but classifies/takes the sign of %s: the component being boxed must be the one tested" % (
+                                             d.text(s)[:90], v, sorted(vars_ - {v})))
+                if s.get("kind") == "IfStmt":
+                    ks = ir.ekids(s)
+                    c = subst(strip_casts(expand(ir.sx(ks[0]))), sub)
+                    if c[0] == "call" and ir.show(c[1]).endswith("isnan") and strip_casts(c[2])[0] == "ref":
+                        cv = strip_casts(c[2])
+                        inner = [x for x in ir.walk_expr(ks[1]) if x.get("kind") == "BinaryOperator" and x.get("opcode") == "="]
+                        for a in inner:
+                            ta = subst(strip_casts(expand(ir.sx(a))), sub)
+                            r_ = strip_casts(ta[3])
+                            if r_[0] == "call" and ir.show(r_[1]).endswith("copysign"):
+                                n_box += 1
+                                ok = strip_casts(ta[2]) == cv and strip_casts(r_[3]) == cv
+                                (rep.holds if ok else rep.violates)("C10.box", label, "NaN -> signed zero of %s" % cv[1], where=d.where(a),
+                                                                    detail=ir.show(ta)[:90] if ok else "tests isnan(%s) but rewrites `%s`" % (cv[1], ir.show(ta)[:80]))
+
+        def under_isnan(s, root):
+            p_ = d.parent_of(s)
+            while p_ is not None and p_ is not root:
+                if p_.get("kind") == "IfStmt":
+                    c_ = strip_casts(ir.sx(ir.ekids(p_)[0]))
+                    if c_[0] == "call" and ir.show(c_[1]).endswith("isnan") and len(c_) == 3:
+                        return True
+                p_ = d.parent_of(p_)
+            return False
+        scan(ir.body(fn), {})
         if fn["name"] == "div":
             # scale
             cd = {n_ for n_, r_ in roles.items() if r_[0] == 1}
